@@ -148,7 +148,7 @@ class ClientDriver(ReorgDriver):
 
     def violate(self, prop, clause, message, keys=()):
         super().violate(prop, clause, message, keys)
-        if prop == 'C08' and clause.startswith('view.') and self.case.get('target') == 'C09':
+        if prop == 'C08' and clause.startswith(('view.', 'liveness.')) and self.case.get('target') == 'C09':
             # C09: "... and reaches the exact view of C08 on the next quiet refresh"
             super().violate('C09', 'convergence.' + clause, message, keys)
 
@@ -1060,6 +1060,12 @@ class MempoolFamily(SubsFamily):
         races = prop == 'C09' or rng.random() < 0.3
         if not races:
             k['fault_rate'] = 0.0
+        elif rng.random() < 0.5:
+            # the tracker's own database look-ups are slow (nothing else is), and tend to come back right after
+            # a job of the block processor has completed: a flush lands between the passes of one look-up
+            k['stall_boost'] = (rng.choice(['lookup_utxos', 'lookup_hashXs', 'lookup_utxos', 'deserialize_txs']),
+                                rng.choice([0.4, 0.8]), 'MemPool', rng.choice(['release', 'release', 'timed']))
+            k['stall_p'] = 0.0
         for _ in range(rng.randint(2, 5)):
             at_max = rng.choice([0.0, 3.0, 12.0]) if races else 0.0
             for _ in range(rng.randint(1, 4)):
@@ -1082,8 +1088,21 @@ class MempoolFamily(SubsFamily):
                                      remine=rng.choice([0.0, 1.0]), at=at, seed=rng.getrandbits(32)))
             if races and rng.random() < 0.3:
                 plan.append(self.rpc_race(rng))
-            if races and rng.random() < 0.5:
-                plan.append(dict(op='wait', dt=round(rng.uniform(0.5, 12.0), 2)))
+            if races and rng.random() < 0.25:
+                # motif: a block, and a second one found right after the next height request was answered (the
+                # refresher knows the first only; the index may take both in one go) - with what the mempool
+                # held confirmed by either
+                plan.append(dict(op='mine', n=1, ntx=[rng.randint(0, 3)], seed=rng.getrandbits(32),
+                                 confirm=rng.choice([0.0, 0.5, 1.0]), at=round(rng.uniform(0.0, 6.0), 2)))
+                plan.append(dict(op='on_rpc', method='getblockcount', skip=rng.randrange(3), then=[
+                    dict(op='mine', n=1, ntx=[rng.randint(0, 3)], seed=rng.getrandbits(32),
+                         confirm=rng.choice([0.0, 0.5, 1.0]))]))
+            if races:
+                # refreshes (every 5 s) must happen while faults, stalls and triggers are armed: settle switches
+                # them off
+                plan.append(dict(op='wait', dt=round(rng.uniform(0.5, 16.0), 2)))
+                if rng.random() < 0.5:
+                    plan.append(dict(op='settle'))
             else:
                 plan.append(dict(op='settle'))
         plan.append(dict(op='settle'))
